@@ -79,24 +79,24 @@ Definition s_decompose (self_ : (banded A)) (au_ : (matrix A)) (al_ : (matrix A)
                            swap_elem au_ k_ j_ i_ j_) au_ in
                    Ok (au_, d_))
               else (Ok (au_, d_)) in
-          let* (au_, al_, dum_) := for_ (k_ + 1)%nat l_ (fun i_ (s23 : ((matrix A) * (matrix A) * (T A))) =>
+          let* (au_, al_, dum_) := for_ (k_ + 1)%nat l_ (fun i_1 (s23 : ((matrix A) * (matrix A) * (T A))) =>
                   let '(au_, al_, dum_) := s23 in
                   let* x12 := mget au_ k_ 0 in
                   let* dum_ := if (eqb x12 (@zero A))
                       then (Ok (@zero A))
-                      else (let* x13 := mget au_ i_ 0 in
+                      else (let* x13 := mget au_ i_1 0 in
                            let* x14 := mget au_ k_ 0 in
                            div x13 x14) in
-                  let* d17 := usub i_ k_ in
+                  let* d17 := usub i_1 k_ in
                   let* d18 := usub d17 1 in
                   let* al_ := mset al_ k_ d18 dum_ in
                   let* au_ := for_ 1 mm_ (fun j_ (au_ : (matrix A)) =>
-                          let* x19 := mget au_ i_ j_ in
+                          let* x19 := mget au_ i_1 j_ in
                           let* x20 := mget au_ k_ j_ in
                           let* d21 := usub j_ 1 in
-                          mset au_ i_ d21 (sub x19 (mul dum_ x20))) au_ in
+                          mset au_ i_1 d21 (sub x19 (mul dum_ x20))) au_ in
                   let* d22 := usub mm_ 1 in
-                  let* au_ := mset au_ i_ d22 (@zero A) in
+                  let* au_ := mset au_ i_1 d22 (@zero A) in
                   Ok (au_, al_, dum_)) (au_, al_, dum_) in
           Ok (au_, al_, index_, d_, l_)) (au_, al_, index_, d_, l_) in
   Ok (au_, al_, index_, d_).
@@ -137,13 +137,13 @@ Definition s_band_solve (self_ : (banded A)) (b_ : (list (T A))) : res (list (T 
                    then (let l_ := (l_ + 1)%nat in
                         Ok l_)
                    else (Ok l_) in
-               let* x_ := for_ (k_ + 1)%nat l_ (fun j_ (x_ : (list (T A))) =>
+               let* x_ := for_ (k_ + 1)%nat l_ (fun j_1 (x_ : (list (T A))) =>
                        let* xk_ := rd x_ k_ in
-                       let* x4 := rd x_ j_ in
-                       let* d5 := usub j_ k_ in
+                       let* x4 := rd x_ j_1 in
+                       let* d5 := usub j_1 k_ in
                        let* d6 := usub d5 1 in
                        let* x7 := mget al_ k_ d6 in
-                       upd x_ j_ (sub x4 (mul x7 xk_))) x_ in
+                       upd x_ j_1 (sub x4 (mul x7 xk_))) x_ in
                Ok (x_, l_)) (x_, l_) in
        let l_ := 1 in
        let* (x_, l_) := for_rev 0 (bn self_) (fun i_ (s14 : ((list (T A)) * nat)) =>
